@@ -128,8 +128,20 @@ func H_C04_prune_repeat() {
 	nact := 1 + choose("nact", 2)
 	var progs [][]uint8
 	for i := 0; i < nact; i++ {
-		progs = append(progs, symOps("act"+itoa(i), 3, []uint8{opReturn, opDrawBool, opErrorf, opSkip}))
+		progs = append(progs, symOps("act"+itoa(i), 3, []uint8{opReturn, opDrawBool, opDrawFiltered, opErrorf, opSkip}))
 	}
+	pruneRepeat(progs, pruneL(9, 15))
+}
+
+// H_C04_prune_repeatFilter: one action that starts with a rejection-based draw (which may give
+// up after 5 rejected tries, ending the action as invalid before any draw succeeded), on a
+// stream long enough for the retry that follows.
+func H_C04_prune_repeatFilter() {
+	progs := [][]uint8{append([]uint8{opDrawFiltered}, symOps("act0", 2, []uint8{opReturn, opDrawBool, opErrorf, opSkip})...)}
+	pruneRepeat(progs, pruneL(14, 18))
+}
+
+func pruneRepeat(progs [][]uint8, L int) {
 	flags.steps = 2
 	run := func(s bitStream) (verdict int, msg string, draws []uint64) {
 		actions := map[string]func(*T){}
@@ -142,6 +154,9 @@ func H_C04_prune_repeat() {
 						return
 					case opDrawBool:
 						draws = append(draws, b2u(Bool().Draw(t, "b")))
+					case opDrawFiltered:
+						// rejection-based draw: gives up (invalid data) after 5 rejected tries
+						draws = append(draws, b2u(Bool().Filter(func(b bool) bool { return b }).Draw(t, "fb")))
 					case opErrorf:
 						t.Errorf("non-fatal failure in an action")
 					case opSkip:
@@ -159,7 +174,7 @@ func H_C04_prune_repeat() {
 		}
 		return 2, err.Error(), draws
 	}
-	s1 := newBufBitStream(symWords("w", pruneL(9, 12)), true)
+	s1 := newBufBitStream(symWords("w", L), true)
 	v1, m1, d1 := run(s1)
 	if v1 == 1 {
 		reach("invalid")
